@@ -14,7 +14,7 @@ def run(rep):
     from . import syntactic
     syntactic.observers_write_nothing(rep)
     q = rep.tier == 'quick'
-    fw.standin(rep, 'real_terms.py', ['search', 3 if q else 4, 50000 if q else 400000, rep.seed],
+    fw.standin(rep, 'real_terms.py', ['search', 3 if q else 4, 60000 if q else 400000, rep.seed],
                'refutation search: real get_value/unify under binding histories vs the spec mirror (resolve)',
                'term pairs up to 3/4 nodes under <=3 earlier active unifications')
     if os.path.exists(os.path.join(fw.VERIF, 'standin', 's_c15.py')):
